@@ -1,4 +1,4 @@
-import VermouthProofs.C12_Pool
+import VermouthProofs.C12_System
 /-!
 # C12 — editing a molecule keeps atoms, bonds and interactions consistent
 
@@ -452,5 +452,329 @@ example : ((exBlock.toMolecule 5 2 3).map (fun m => m.nodes.map (fun p => (p.2.r
 example : ((exBlock.toMolecule 5 2 3).map (fun m => (m.edges, m.inters.map (fun ti => ti.2.atoms)))) =
     some ([(5, 6), (7, 6)], [[5, 6], [7, 6, 5]]) := by decide
 example : ({ exBlock with edges := [("N", "ZZ")] } : Block).toMolecule 5 2 3 = none := by decide
+
+/-! ## 8. `remove_matching_interaction`, `prune_edges_*` -/
+
+/-- `remove_matching_interaction` removes exactly the FIRST interaction of the type that matches
+the template and nothing else; it fails (ValueError, state unchanged) exactly when none matches -/
+theorem remove_matching_first (m : Mol) (ty : String) (t : Template) :
+    (∀ m', m.removeMatching ty t = (m', .ok) ↔
+      ∃ pre x post, m.inters = pre ++ x :: post ∧ (x.1 = ty ∧ interMatch m.nodes t x.2 = true) ∧
+        (∀ y ∈ pre, ¬ (y.1 = ty ∧ interMatch m.nodes t y.2 = true)) ∧
+        m' = { m with inters := pre ++ post }) ∧
+    (m.removeMatching ty t = (m, .valueerror) ↔
+      ∀ y ∈ m.inters, ¬ (y.1 = ty ∧ interMatch m.nodes t y.2 = true)) ∧
+    ((m.removeMatching ty t).2 = .ok ∨ (m.removeMatching ty t).2 = .valueerror) := by
+  unfold Mol.removeMatching
+  refine ⟨?_, ?_, ?_⟩
+  · intro m'
+    cases hr : removeFirstP m.inters ty (interMatch m.nodes t) with
+    | none =>
+      simp only [Prod.mk.injEq, reduceCtorEq, and_false, false_iff]
+      rintro ⟨pre, x, post, h1, h2, h3, _⟩
+      have := (removeFirstP_none_iff _ _ _).mp hr x (by rw [h1]; simp)
+      exact this h2
+    | some l =>
+      simp only [Prod.mk.injEq, and_true]
+      constructor
+      · rintro rfl
+        obtain ⟨pre, x, post, h1, h2, h3, h4⟩ := (removeFirstP_some_iff _ _ _ _).mp hr
+        exact ⟨pre, x, post, h1, h2, h3, by rw [h4]⟩
+      · rintro ⟨pre, x, post, h1, h2, h3, rfl⟩
+        have := (removeFirstP_some_iff _ _ _ (pre ++ post)).mpr ⟨pre, x, post, h1, h2, h3, rfl⟩
+        rw [hr] at this; cases this; rfl
+  · cases hr : removeFirstP m.inters ty (interMatch m.nodes t) with
+    | none => simp only [true_iff]; exact (removeFirstP_none_iff _ _ _).mp hr
+    | some l =>
+      simp only [Prod.mk.injEq, reduceCtorEq, and_false, false_iff]
+      intro h
+      rw [(removeFirstP_none_iff _ _ _).mpr h] at hr; cases hr
+  · cases removeFirstP m.inters ty (interMatch m.nodes t) with
+    | none => exact Or.inr rfl
+    | some l => exact Or.inl rfl
+
+/-- what a template matches: same atoms in the same order; the parameters if the template gives
+any; the version if the meta template gives one; and, for a `DeleteInteraction`, every attribute
+given for the k-th atom equals that of the molecule's node -/
+theorem inter_match_iff (nodes : List (Int × Attrs)) (t : Template) (i : Inter) :
+    interMatch nodes t i = true ↔
+      i.atoms = t.atoms ∧ (∀ p, t.params = some p → i.params = p) ∧
+      (∀ v, t.version = some v → i.version = v) ∧
+      (∀ l, t.atomAttrs = some l → ∀ ax ∈ i.atoms.zip l,
+        ∃ na, lookupAttrs nodes ax.1 = some na ∧ attrsMatch na ax.2 = true) := by
+  unfold interMatch
+  simp only [Bool.and_eq_true, Bool.or_eq_true, beq_iff_eq, Option.isNone_iff_eq_none]
+  constructor
+  · rintro ⟨⟨⟨h1, h2⟩, h3⟩, h4⟩
+    refine ⟨h1, ?_, ?_, ?_⟩
+    · intro p hp; rcases h2 with h2 | h2 <;> rw [hp] at h2 <;> cases h2; rfl
+    · intro v hv; rcases h4 with h4 | h4 <;> rw [hv] at h4 <;> cases h4; rfl
+    · intro l hl ax hax
+      rw [hl] at h3
+      simp only [List.all_eq_true] at h3
+      have := h3 ax hax
+      cases hla : lookupAttrs nodes ax.1 with
+      | none => rw [hla] at this; cases this
+      | some na => rw [hla] at this; exact ⟨na, rfl, this⟩
+  · rintro ⟨h1, h2, h3, h4⟩
+    refine ⟨⟨⟨h1, ?_⟩, ?_⟩, ?_⟩
+    · cases hp : t.params with
+      | none => exact Or.inl rfl
+      | some p => right; rw [h2 p hp]
+    · cases hl : t.atomAttrs with
+      | none => rfl
+      | some l =>
+        simp only [List.all_eq_true]
+        intro ax hax
+        obtain ⟨na, e1, e2⟩ := h4 l hl ax hax
+        rw [e1]; exact e2
+    · cases hv : t.version with
+      | none => exact Or.inl rfl
+      | some v => right; rw [h3 v hv]
+
+example : (exA.removeMatching "angles" { atoms := [1, 2, 5] }).1.inters =
+    [("bonds", { atoms := [1, 2], params := "p", version := 0 })] := by decide
+example : (exA.removeMatching "angles" { atoms := [1, 2, 5], params := some "zz" }).2 = .valueerror := by decide
+example : (exA.removeMatching "bonds" { atoms := [1, 2], atomAttrs := some [{ name := some "N" }, { resid := some 9 }] }).2
+    = .valueerror := by decide
+example : (exA.removeMatching "bonds" { atoms := [1, 2], atomAttrs := some [{ name := some "N", cg := some 2 }] }).2
+    = .ok := by decide
+
+/-- `prune_edges_between_selections` / `prune_edges_with_selectors` remove exactly the bonds with
+one end in each selection; no node, interaction or anything else is touched (so no bond with an
+absent end point can appear and no atom is dropped) -/
+theorem prune_edges_spec (m : Mol) (a b : List Int) (na : String) (nb : Option String) :
+    (m.pruneEdges a b).edges = m.edges.filter (fun e =>
+      decide (¬ ((e.1 ∈ a ∧ e.2 ∈ b) ∨ (e.2 ∈ a ∧ e.1 ∈ b)))) ∧
+    m.pruneEdges a b = { m with edges := (m.pruneEdges a b).edges } ∧
+    m.pruneByName na nb = m.pruneEdges (m.selectByName na) (m.selectByName (nb.getD na)) ∧
+    (∀ k, k ∈ m.selectByName na ↔ ∃ at', (k, at') ∈ m.nodes ∧ at'.name = some na) := by
+  refine ⟨?_, rfl, rfl, ?_⟩
+  · unfold Mol.pruneEdges
+    apply List.filter_congr
+    intro e _
+    simp [edgeBetween]
+  · intro k
+    simp only [Mol.selectByName, List.mem_map, List.mem_filter, beq_iff_eq]
+    constructor
+    · rintro ⟨p, ⟨hp, hn⟩, rfl⟩; exact ⟨p.2, hp, hn⟩
+    · rintro ⟨at', hp, hn⟩; exact ⟨(k, at'), ⟨hp, hn⟩, rfl⟩
+
+example : (exA.pruneEdges [1, 9] [2]).edges = [(5, 2)] := by decide
+example : (exA.pruneByName "CA" (some "C")).edges = [(1, 2)] := by decide
+
+/-! ## 9. Systems: `System.add_molecule`, `System.copy`, `MergeAllMolecules`, `MergeChains`
+
+A system is a list of references (pool indices).  `SInv st` = every pool member satisfies
+`Mol.Inv` and every reference of every system points into the pool. -/
+
+theorem sinv_init : SInv {} := by decide
+
+/-- every system-level operation (the molecule operations included) preserves `SInv` -/
+theorem sinv_step (st : State) (op : SOp) (h : SInv st) : SInv (sstep st op).1 := sstep_inv h op
+
+theorem sinv_reachable (ops : List SOp) : SInv (srun {} ops) := srun_inv sinv_init ops
+
+/-- frame: a pool member other than the one edited in place (`SOp.target`: the target of a
+molecule operation, the first molecule of the system for MergeAllMolecules, nothing for
+add_molecule / System.copy / MergeChains) is unchanged, and the pool only grows -/
+theorem sstep_frame_other (st : State) (op : SOp) (j : Nat) (hj : j < st.pool.length)
+    (ht : SOp.target st op ≠ some j) :
+    (sstep st op).1.pool[j]? = st.pool[j]? ∧ st.pool.length ≤ (sstep st op).1.pool.length :=
+  sstep_frame st op j hj ht
+
+/-- over a history: molecule `j` is unchanged by any history that never edits `j` in place -/
+theorem sframe_history (st : State) (ops : List SOp) (j : Nat) (hj : j < st.pool.length)
+    (ht : ∀ st' op, op ∈ ops → SOp.target st' op ≠ some j) : (srun st ops).pool[j]? = st.pool[j]? :=
+  srun_frame st ops j hj ht
+
+/-- failing system-level operations: the system lists are unchanged, and the whole state is
+unchanged unless the operation is MergeAllMolecules (see `merge_all_error_partial_witness`) -/
+theorem sstep_error (st : State) (op : SOp) (h : (sstep st op).2 ≠ .ok) :
+    (sstep st op).1.systems = st.systems ∧ ((∀ s, op ≠ .mergeAll s) → (sstep st op).1 = st) :=
+  sstep_err st op h
+
+/-- `System.copy`: the new system refers to NEW pool members only (indices from the old pool
+length on, so no older system refers to them and, by the frame theorems, editing them never
+shows in the source and vice versa); the k-th is the copy of the source's k-th molecule; the old
+pool and the old systems are unchanged -/
+theorem system_copy_independent (st : State) (s : Nat) (l : List Nat) (h : SInv st)
+    (hs : st.systems[s]? = some l) :
+    ∃ ms, getMols st.pool l = some ms ∧ ms.length = l.length ∧
+      (∀ k (hk : k < l.length), st.pool[l[k]]? = ms[k]?) ∧
+      sstep st (.copySys s) =
+        ({ pool := st.pool ++ ms.map Mol.copy,
+           systems := st.systems ++ [List.range' st.pool.length l.length] }, .ok) ∧
+      (∀ l' ∈ st.systems, ∀ i ∈ l', i ∉ List.range' st.pool.length l.length) := by
+  obtain ⟨ms, hg⟩ := getMols_isSome st.pool l (h.2 l (List.mem_of_getElem? hs))
+  obtain ⟨h1, h2⟩ := getMols_spec _ _ _ hg
+  refine ⟨ms, hg, h1, h2, ?_, ?_⟩
+  · simp only [sstep, hs, hg, h1]
+  · intro l' hl' i hi hr
+    have := h.2 l' hl' i hi
+    have := List.mem_range'_1.mp hr
+    omega
+
+/-- `System.add_molecule` stores a reference: pool unchanged, the index appended -/
+theorem add_molecule_step (st : State) (s i : Nat) (l : List Nat) (m : Mol)
+    (hs : st.systems[s]? = some l) (hm : st.pool[i]? = some m) :
+    sstep st (.addMol s i) = ({ st with systems := st.systems.set s (l ++ [i]) }, .ok) := by
+  simp only [sstep, hs, hm]
+
+/-! ### the fold of `merge_molecule` behind both processors -/
+
+/-- the fold stops at the first failure; it can only fail with ValueError (nrexcl mismatch); the
+accumulator satisfies the invariant at every point (also after a failure) -/
+theorem merge_all_outcome (acc : Mol) (rest : List Mol) (hacc : acc.Inv) (hrest : ∀ o ∈ rest, o.Inv) :
+    (mergeFold acc rest).1.Inv ∧
+    ((mergeFold acc rest).2 = .ok ∨ (mergeFold acc rest).2 = .valueerror) ∧
+    ((mergeFold acc rest).2 = .ok → ∀ k, k < rest.length →
+      (runningList acc rest)[k]? = some (mergeFold acc (rest.take k)).1) :=
+  ⟨mergeFold_inv rest hacc hrest, mergeFold_outcome rest hacc hrest,
+   fun hok k hk => runningList_get acc rest k hk hok⟩
+
+/-- **merge_all_keeps.**  `runningList acc rest` pairs every operand with the accumulator it is
+merged into (entry k = result of merging the first k operands).  After a successful fold:
+* the invariant holds (keys distinct, nothing dangling, valid cache);
+* nodes: those of `acc`, untouched, then for every operand IN ORDER its nodes in order
+  (`segNodes`: i-th key = running offset + 1 + i, attributes shifted UNIFORMLY by the running
+  last atom, see `segment_spec`), each exactly once (the length adds up and keys are distinct);
+* interactions: those of `acc`, then every operand's, atoms renamed through its correspondence;
+* bonds: exactly those of `acc` and the renamed non-loop bonds of every operand;
+* citations: the union. -/
+theorem merge_all_keeps (acc : Mol) (rest : List Mol) (hacc : acc.Inv) (hrest : ∀ o ∈ rest, o.Inv)
+    (hok : (mergeFold acc rest).2 = .ok) :
+    (mergeFold acc rest).1.Inv ∧
+    (mergeFold acc rest).1.nodes =
+      acc.nodes ++ ((rest.zip (runningList acc rest)).map segNodes).flatten ∧
+    (mergeFold acc rest).1.nodes.length = acc.nodes.length + (rest.map (fun o => o.nodes.length)).sum ∧
+    (mergeFold acc rest).1.keys.Nodup ∧
+    (mergeFold acc rest).1.inters =
+      acc.inters ++ ((rest.zip (runningList acc rest)).map segInters).flatten ∧
+    (∀ a b, (mergeFold acc rest).1.hasEdge a b = true ↔
+      acc.hasEdge a b = true ∨
+      ∃ x ∈ rest.zip (runningList acc rest), ∃ e ∈ x.1.edges, segEdge x e a b) ∧
+    (∀ c, c ∈ (mergeFold acc rest).1.cites ↔ c ∈ acc.cites ∨ ∃ o ∈ rest, c ∈ o.cites) := by
+  have hinv := mergeFold_inv rest hacc hrest
+  have hn := mergeFold_nodes rest hacc hrest hok
+  refine ⟨hinv, hn, ?_, hinv.1.1, mergeFold_inters rest hacc hrest hok,
+    mergeFold_hasEdge rest hacc hrest hok, (mergeFold_nrexcl_cites rest hacc hrest hok).1⟩
+  rw [hn, List.length_append, List.length_flatten, List.map_map]
+  congr 1
+  exact segNodes_total_length rest _ (runningList_length acc rest)
+
+/-- the segment operand `o` contributes when merged into accumulator `r`: its i-th node gets the
+key `r.offset + 1 + i` and `Attrs.shift` by (resid, charge group) of `r`'s highest-key node
+(`offset_shift_spec`), the same shift for every node of the operand; interactions keep type,
+parameters and version and get their atoms renamed -/
+theorem segment_spec (o r : Mol) :
+    (segNodes (o, r)).length = o.nodes.length ∧
+    (∀ i : Nat, (segNodes (o, r))[i]? =
+      (o.nodes[i]?).map (fun p => (r.offset + 1 + (i : Int), p.2.shift r.shiftBy.1 r.shiftBy.2))) ∧
+    segInters (o, r) = o.inters.map
+      (fun ti => (ti.1, { ti.2 with atoms := ti.2.atoms.map (corr o.keys r.offset) })) :=
+  ⟨newNodes_length _ _ _ _, fun i => newNodes_getElem? _ _ _ _ i, rfl⟩
+
+/-! ### the two processors as steps of the state machine -/
+
+/-- `MergeAllMolecules.run_system`: the first molecule of the system becomes the fold of
+`merge_molecule` over the others (in place), and on success the system holds just that one -/
+theorem merge_all_step (st : State) (s i0 : Nat) (rest : List Nat) (m0 : Mol) (ms : List Mol)
+    (hs : st.systems[s]? = some (i0 :: rest)) (hne : i0 ∉ rest)
+    (hm : st.pool[i0]? = some m0) (hg : getMols st.pool rest = some ms) :
+    sstep st (.mergeAll s) =
+      ({ pool := st.pool.set i0 (mergeFold m0 ms).1,
+         systems := if (mergeFold m0 ms).2 = .ok then st.systems.set s [i0] else st.systems },
+       (mergeFold m0 ms).2) ∧
+    sstep { st with systems := st.systems.set s [] } (.mergeAll s) =
+      ({ st with systems := st.systems.set s [] }, if s < st.systems.length then .ok else .badindex) := by
+  constructor
+  · have : ¬ rest.contains i0 = true := by simpa using hne
+    simp only [sstep, hs, this, hm, hg, Bool.false_eq_true, ↓reduceIte]
+  · by_cases hlt : s < st.systems.length
+    · simp [sstep, hlt]
+    · simp [sstep, hlt]
+
+/-- `MergeChains.run_system`: `chainSelected` says which molecules are merged (all of them with
+`all_chains`, else those whose every atom has its chain among `chains` — an EMPTY molecule is
+always selected); giving both or neither of chains / all_chains is a ValueError; nothing selected:
+no change; otherwise a NEW molecule = fold over the selected molecules in order starting from an
+empty molecule is appended to the pool, and in the system it takes the place of the first selected
+molecule while the other selected ones disappear and the rest keep their order
+(`replace_selected_spec`).  No existing molecule is modified; a failure changes nothing. -/
+theorem merge_chains_step (st : State) (s : Nat) (chains : List (Option String)) (all : Bool)
+    (l : List Nat) (ms : List Mol) (hs : st.systems[s]? = some l) (hg : getMols st.pool l = some ms) :
+    (((all && !chains.isEmpty) || (!all && chains.isEmpty)) = true →
+      sstep st (.mergeChains s chains all) = (st, .valueerror)) ∧
+    (((all && !chains.isEmpty) || (!all && chains.isEmpty)) = false →
+      ((ms.filter (chainSelected chains all)) = [] → sstep st (.mergeChains s chains all) = (st, .ok)) ∧
+      (∀ f more, ms.filter (chainSelected chains all) = f :: more →
+        sstep st (.mergeChains s chains all) =
+          (if (mergeFold (freshMerged f.nrexcl) (f :: more)).2 = .ok then
+            ({ pool := st.pool ++ [(mergeFold (freshMerged f.nrexcl) (f :: more)).1],
+               systems := st.systems.set s
+                 (replaceSelected st.pool.length (l.zip (ms.map (chainSelected chains all))) false) }, .ok)
+           else (st, (mergeFold (freshMerged f.nrexcl) (f :: more)).2)))) := by
+  have hz : ∀ (xs : List Mol), ((xs.zip (xs.map (chainSelected chains all))).filter (fun x => x.2)) =
+      (xs.filter (chainSelected chains all)).map (fun m => (m, true)) := by
+    intro xs
+    induction xs with
+    | nil => rfl
+    | cons x t ih =>
+      simp only [List.map_cons, List.zip_cons_cons, List.filter_cons]
+      cases hx : chainSelected chains all x <;> simp [ih]
+  constructor
+  · intro hc
+    simp only [sstep, hs, hc, ↓reduceIte]
+  · intro hc
+    constructor
+    · intro hnil
+      simp only [sstep, hs, hc, hg, hz, hnil, Bool.false_eq_true, ↓reduceIte, List.map_nil]
+    · intro f more hsel
+      simp only [sstep, hs, hc, hg, hz, hsel, Bool.false_eq_true, ↓reduceIte, List.map_cons, List.map_map]
+      have : (Prod.fst ∘ fun m : Mol => (m, true)) = id := rfl
+      rw [this, List.map_id]
+
+/-- the new molecule list of MergeChains, in closed form -/
+theorem replace_selected_spec (n : Nat) (lz : List (Nat × Bool)) :
+    replaceSelected n lz false =
+      (lz.takeWhile (fun q => !q.2)).map Prod.fst ++
+        (match lz.dropWhile (fun q => !q.2) with
+         | [] => []
+         | _ :: rest => n :: (rest.filter (fun q => !q.2)).map Prod.fst) :=
+  replaceSelected_eq n lz
+
+theorem chain_selected_iff (chains : List (Option String)) (all : Bool) (m : Mol) :
+    chainSelected chains all m = true ↔ all = true ∨ ∀ p ∈ m.nodes, p.2.chain ∈ chains := by
+  simp [chainSelected]
+
+/-- three molecules on chains A, B, A (the last with another nrexcl) and an empty one -/
+def exChainA : Mol := { exA with nodes := exA.nodes.map (fun p => (p.1, { p.2 with chain := some "A" })) }
+def exChainB : Mol := { exB with nodes := exB.nodes.map (fun p => (p.1, { p.2 with chain := some "B" })) }
+def exSys : State :=
+  { pool := [exChainA, exChainB, { exChainA with nrexcl := some 3 }, { nrexcl := some 1 }], systems := [[0, 1, 3], [0, 1, 2]] }
+
+example : SInv exSys := by decide
+example : (sstep exSys (.mergeAll 0)).2 = .ok := by decide
+example : (sstep exSys (.mergeAll 0)).1.systems = [[0], [0, 1, 2]] := by decide
+example : ((sstep exSys (.mergeAll 0)).1.pool[0]?.map Mol.keys) = some [1, 2, 5, 6, 7, 8] := by decide
+example : (sstep exSys (.mergeChains 0 [some "A"] false)).1.systems = [[4, 1], [0, 1, 2]] := by decide
+example : ((sstep exSys (.mergeChains 0 [some "A"] false)).1.pool[4]?.map Mol.keys) = some [1, 2, 3] := by decide
+example : (sstep exSys (.mergeChains 0 [some "B"] false)).1.systems = [[0, 4], [0, 1, 2]] := by decide
+example : (sstep exSys (.mergeChains 0 [] true)).1.systems = [[4], [0, 1, 2]] := by decide
+example : sstep exSys (.mergeChains 1 [] true) = (exSys, .valueerror) := by decide
+example : sstep exSys (.mergeChains 0 [some "A"] true) = (exSys, .valueerror) := by decide
+example : (sstep exSys (.copySys 1)).1.systems = [[0, 1, 3], [0, 1, 2], [4, 5, 6]] := by decide
+
+/-- what a failing MergeAllMolecules leaves behind (the code and the model agree): system 1 holds
+molecules with nrexcl 1, 1, 3; the third merge raises ValueError, the system still lists all
+three, but its first molecule has already absorbed the second (6 atoms instead of 3) -/
+theorem merge_all_error_partial_witness :
+    (sstep exSys (.mergeAll 1)).2 = .valueerror ∧
+    (sstep exSys (.mergeAll 1)).1.systems = exSys.systems ∧
+    (exSys.pool[0]?.map (fun m => m.nodes.length)) = some 3 ∧
+    ((sstep exSys (.mergeAll 1)).1.pool[0]?.map (fun m => m.nodes.length)) = some 6 ∧
+    SInv (sstep exSys (.mergeAll 1)).1 := by
+  decide
 
 end C12
